@@ -29,6 +29,10 @@ type C11LogCase struct {
 	Lines  []string `json:"lines"`  // typed by the operator
 	Chunks [][]byte `json:"chunks"` // sent by the shell
 	Refuse bool     `json:"refuse"` // make a refused attempt while the shell is attached
+	// Earlier > 0: the log file already holds this many records of an earlier
+	// run (reusing one -log file across runs is normal); they must stay and
+	// this run's records must follow them.
+	Earlier int `json:"earlier,omitempty"`
 }
 
 func toValid(s string) string {
@@ -49,6 +53,15 @@ func runC11Log(t testing.TB, c C11LogCase) (key, what string) {
 	dir := workDir(t)
 	defer os.RemoveAll(dir)
 	logf := filepath.Join(dir, "session.json")
+	var earlier []byte
+	for i := 0; i < c.Earlier; i++ {
+		earlier = append(earlier, fmt.Sprintf(`{"time":"2024-01-01T00:00:%02d.000Z","level":"INFO","msg":"Earlier run","n":%d,"pad":"%s"}`+"\n", i%60, i, strings.Repeat("e", 40+i))...)
+	}
+	if c.Earlier > 0 {
+		if err := os.WriteFile(logf, earlier, 0o600); err != nil {
+			return "HARNESS", err.Error()
+		}
+	}
 	p, err := Start(bin, []string{"-listen-address", "127.0.0.1:0", "-tls-certificate-cache", filepath.Join(dir, "cert.txtar"), "-log", logf}, baseEnv(dir), true, nil)
 	if err != nil {
 		return "HARNESS", err.Error()
@@ -115,6 +128,10 @@ func runC11Log(t testing.TB, c C11LogCase) (key, what string) {
 	if len(raw) == 0 || raw[len(raw)-1] != '\n' {
 		return "log-framing", "the log does not end with a newline"
 	}
+	if !bytes.HasPrefix(raw, earlier) {
+		return "log-earlier-records-damaged", fmt.Sprintf("the log file held %d records of an earlier run (%d bytes); after this run it no longer starts with them (first difference at byte %d)", c.Earlier, len(earlier), firstDiff(raw, earlier))
+	}
+	raw = raw[len(earlier):]
 	var inData []string
 	var outData strings.Builder
 	counts := map[string]int{}
@@ -189,8 +206,13 @@ func TestC11Log(t *testing.T) {
 			c.Chunks = append(c.Chunks, []byte(rapid.SampledFrom([]string{"plain\n", "quo\"te", "nul\x00byte", "\xff\xfe", "tab\tnew\nline\r\n", "{\"a\":1}", "ünï", "\x1b[31mred\x1b[0m", "back\\slash"}).Draw(rt, "chunk")))
 		}
 		c.Refuse = rapid.Bool().Draw(rt, "refuse")
+		c.Earlier = rapid.SampledFrom([]int{0, 0, 1, 5, 40}).Draw(rt, "earlier")
 		canon, _ := json.Marshal(c)
-		cc.Case("L4"+string(canon), true, "L4-log-file-session")
+		cls := []string{"L4-log-file-session"}
+		if c.Earlier > 0 {
+			cls = append(cls, "L4-log-file-with-earlier-records")
+		}
+		cc.Case("L4"+string(canon), true, cls...)
 		k, w := runC11Log(t, c)
 		if k == "HARNESS" {
 			cc.Inconclusive(w)
